@@ -114,6 +114,9 @@ func c02NodeBody(c *vk.Ctx, cs c02NodeCase) {
 			judge(x.Raw, "peer "+x.Peer)
 		}
 		got := s.app.received()
+		if len(got) < seenApp {
+			seenApp = 0 // a new agent after a restart
+		}
 		for _, b := range got[seenApp:] {
 			b := b
 			if raw := vfEnc(&b); raw != nil {
@@ -250,7 +253,7 @@ func vfTruncR(b []byte) []byte {
 }
 
 func TestVerifC02NodeGenerated(t *testing.T) {
-	u := vk.Unit{Property: "C02", Name: "c02.node-generated", Quick: 250, Thorough: 15000,
+	u := vk.Unit{Property: "C02", Name: "c02.node-generated", Quick: 150, Thorough: 15000,
 		Rule: "a real node (per routing algorithm) with a ping agent, an application agent and up to three scripted peers receives 1..4 generated valid bundles (all block mixes, CRC mixes, fragments, anonymous sources, status-request flags; destination far / a peer / local agent / ping agent / local endpoint without agent; report-to a peer / far / local) interleaved with peers appearing and disappearing, failing sends, retry ticks, PRoPHET advertisements, DTLSR broadcasts and restarts; EVERY bundle the node hands to a convergence layer or to the application agent is decoded independently and must break no rule of the independent BPv7 validator, carry correct CRCs and be accepted by the parser; non-trivial = at least one bundle generated by the node itself (status report, pong, routing metadata or broadcast) was judged; distinct by case hash"}
 	vk.Check(t, u, genC02Node, c02NodeBody)
 }
